@@ -143,6 +143,12 @@ func ArrayToAppendAction() RewriteAction {
 			return []ast.Option{option}
 		}
 
+		// the option already appends or indexes (the rule was applied before): the
+		// argument is not the whole list
+		if option.Assignments[target].Method != ast.DirectAssignment {
+			return []ast.Option{option}
+		}
+
 		newOpt := option
 		newOpt.Args = []ast.Argument{newFirstArg}
 		newOpt.Assignments = make([]ast.Assignment, 0, len(option.Assignments))
@@ -219,6 +225,12 @@ func MapToIndexAction() RewriteAction {
 		target := assignmentOfArgument(option, option.Args[0])
 		if target == -1 {
 			// TODO: what if there is an envelope in the value assignment?
+			return []ast.Option{option}
+		}
+
+		// the option already appends or indexes (another rule was applied before): the
+		// argument is not the whole map
+		if option.Assignments[target].Method != ast.DirectAssignment {
 			return []ast.Option{option}
 		}
 
